@@ -43,6 +43,7 @@ def run(ctx, obs):
         if mean_first(ctx, obs, q) == 0:
             obs.unk('MEAN-FIRST', q, 'fold means are computed by average_dataset_by', 'no averaging call found in the function')
     log_side(ctx, obs)
+    kernel_symmetrised(ctx, obs)
     distinct_fold_indices(ctx, obs, CN)
     operand_symmetry(ctx, obs, CN)
     centring_axis(ctx, obs)
@@ -184,6 +185,46 @@ def _kernel_operands(ctx, q, r):
                 out.append((n, n.left, n.right, f'log-kernel product #{k}'))
                 k += 1
     return out
+
+
+def kernel_symmetrised(ctx, obs, rule='KERNEL-SYM'):
+    """The cross-fold kernel K = X_m P X_n' (or L_m log(L_n)') is NOT symmetric: entry (a, b) pairs condition a of one fold with
+    condition b of the other.  The distance d_ab = K_aa + K_bb - K_ab - K_ba needs both K and K' - writing `- 2 * K` is the
+    same only for a symmetric kernel (one fold with itself, or after the sum over both orders of a fold pair has been taken with a
+    symmetric P); with one precision per fold each unordered fold pair is visited once and nothing symmetrises the result."""
+    prog = ctx.prog
+    for q in (SINGLE, PCV):
+        f = prog.func(q)
+        for st in ast.walk(f.node):
+            if not (isinstance(st, ast.Assign) and len(st.targets) == 1 and isinstance(st.targets[0], ast.Name) and isinstance(st.value, ast.BinOp)
+                    and isinstance(st.value.op, ast.MatMult)):
+                continue
+            ops = []
+            e = st.value
+            while isinstance(e, ast.BinOp) and isinstance(e.op, ast.MatMult):
+                ops.insert(0, e.right)
+                e = e.left
+            ops.insert(0, e)
+
+            def root(x):
+                names = [n.id for n in ast.walk(x) if isinstance(n, ast.Name) and n.id not in ('np', 'numpy')]
+                return names[0] if names else None
+            a, b = root(ops[0]), root(ops[-1])
+            if a is None or b is None or a == b:
+                continue
+            k = st.targets[0].id
+            uses = [x for x in ast.walk(f.node) if isinstance(x, ast.Name) and x.id == k and isinstance(x.ctx, ast.Load)]
+            if not uses:
+                continue
+            transposed = [x for x in ast.walk(f.node) if (isinstance(x, ast.Attribute) and x.attr == 'T' and isinstance(x.value, ast.Name) and x.value.id == k)
+                          or (isinstance(x, ast.Call) and norm(x.func).split('.')[-1] == 'transpose' and any(isinstance(y, ast.Name) and y.id == k for y in ast.walk(x)))]
+            con = f'the cross-fold kernel `{k}` of {q.split(".")[-1]} enters the distance together with its transpose'
+            if transposed:
+                obs.ok(rule, q, con, f'`{norm(st)[:60]}`', where(prog, f, st))
+            else:
+                obs.bad(rule, q, con, f'`{norm(st)[:70]}` pairs `{a}` with `{b}` (two different folds), and `{k}` is never transposed: the distance '
+                        f'uses K_ab twice instead of K_ab + K_ba, which differs whenever the two folds (or their precisions) differ',
+                        where(prog, f, st))
 
 
 def log_side(ctx, obs, rule='LOG-SIDE'):
